@@ -5,13 +5,19 @@ import CookModel.Lemmas.CollectorAgree
 /-
   C14  Metadata-only parsing agrees with full parsing.
 
-  Proved here: with front matter the metadata-only scanner emits exactly the front-matter event
-  the full parser starts with (neither treats `>>` lines as metadata then), and without front
-  matter every block the metadata-only scanner hands to `metadata_entry` starts with `>>` and
-  contains no newline token, i.e. it is a `>>` line as the full splitter isolates it.  The
-  agreement of the resulting metadata (whenever both analyses have output) is decided per run on
-  the implementation (oracle: both outputs' metadata equal) and against the model, under all
-  extension patterns.
+  Proved here, for every input, character table, extension set and environment:
+  * token level (`C14_meta_blocks_eq`, no side condition): the slices the metadata-only scanner
+    hands to `metadata_entry` are exactly the blocks of the full splitter that start with `>>`;
+  * event level (`C14_metadata_events_agree`): without front matter the `Metadata` events of the
+    full pull parser are exactly the events of the metadata-only parser — no other block parser
+    ever emits a metadata event and `metadata_entry` does not depend on the event queue;
+  * analysis level (`C14_agree_partial`): without front matter, whenever both analyses have output
+    their metadata map, std-key locations, servings and old-style spans are equal — non-metadata
+    events never touch that part of the collector, and a metadata event's effect on it depends only
+    on it;
+  * with front matter the metadata-only scanner emits exactly the front-matter event the full parser
+    starts with (`C14_front_matter_same_event`); the agreement of the analyses in that case is
+    decided per run (oracle: both outputs' metadata equal) and against the model.
 -/
 namespace Cook
 variable {α : Type} [Arith α]
@@ -187,6 +193,10 @@ theorem C14_metadata_event_depends_on_metadata_only (env : Env) (k v : Text) (s 
     (h : s.ms = s'.ms) :
     ((processEvent (α := α) env [] (.metadata k v) s).2).ms = ((processEvent (α := α) env [] (.metadata k v) s').2).ms :=
   ((sm_metadataA env k v).run s s' h).2
+
+/-! non-vacuity of "no front matter": an old-style metadata line followed by a step -/
+example : parseFrontmatter ⟨fun c => c == ' ', fun _ => false, fun _ => true, fun c => c == ' ' || c == '\n', fun _ => true⟩
+    ">> a: b\nx".toList = none := by decide
 
 /-! the corner cases, on concrete streams (both sides computed):
     leading whitespace before `>>` (not metadata in either scanner); a `>>` line right after a
